@@ -72,3 +72,7 @@ Definition clean_line (l : bytes) : bool := forallb clean_byte l.
         (one definition, used by the run-time classifier and by the conditional statements) ---- *)
 (* the text already starts with a byte-order mark: only the first of two marks is skipped *)
 Definition known_bom_on_bom (x : bytes) : bool := has_bom x.
+
+(* the text is longer than the floor of the reference budget (the budget is max(floor, byte length), so a
+   longer copy of the same text gets a larger budget; DESIGN F18).  `floor` is the constant of the code. *)
+Definition known_above_floor (floor : N) (x : bytes) : bool := (floor <? N.of_nat (List.length x))%N.
